@@ -164,6 +164,10 @@ func newEventFromTrustedJSONWithEventIDV3(eventID string, eventJSON []byte, reda
 	if err := json.Unmarshal(eventJSON, &res); err != nil {
 		return nil, err
 	}
+	if res == nil {
+		// the JSON text "null" unmarshals into a nil pointer
+		return nil, fmt.Errorf("gomatrixserverlib: event is not a JSON object")
+	}
 
 	// v3 events have room IDs as the create event ID.
 	// TODO: allow validation to be enhanced/relaxed to help users like Complement.
